@@ -610,8 +610,8 @@ def main(tier):
     rnd.shuffle(bfs_keys)
     rnd.shuffle(sim_keys)
     if quick:
-        bfs_keys = bfs_keys[:int(1000 * scale)]
-        sim_keys = sim_keys[:int(2200 * scale)]
+        bfs_keys = bfs_keys[:int(800 * scale)]
+        sim_keys = sim_keys[:int(1900 * scale)]
     else:
         bfs_keys = bfs_keys[:int(12000 * scale)]
         sim_keys = sim_keys[:int(8000 * scale)]
